@@ -1452,6 +1452,15 @@ func (l *ChainedSeqContext3) apply(ctx *Context, a, b int) int {
 	}
 	next := p
 
+	// Inside a nested lookup the loop above stops at the end of the parent's
+	// match, so ignored glyphs in front of the lookahead context have not
+	// been skipped yet.
+	if len(l.Lookahead) > 0 {
+		for p < len(seq) && !keep.Keep(seq[p].GID) {
+			p++
+		}
+	}
+
 	glyphsNeeded = len(l.Lookahead)
 	for _, cov := range l.Lookahead {
 		if p+glyphsNeeded-1 >= len(seq) || !cov[seq[p].GID] {
